@@ -371,6 +371,9 @@ impl ByteSeries {
 
         let start = range.start_bound().cloned();
         let end = range.end_bound().cloned();
+        if n == 0 {
+            return Ok(()); // zero samples requested
+        }
 
         let mut optimal_data = &mut self.data;
         for downsampled in &mut self.downsampled {
@@ -444,6 +447,9 @@ impl ByteSeries {
         timestamps: &mut Vec<Timestamp>,
         data: &mut Vec<D::Item>,
     ) -> Result<(), Error> {
+        if n == 0 {
+            return Ok(()); // zero lines requested
+        }
         let Some(seek) = seek::RoughPos::new(
             &self.data,
             range.start_bound().cloned(),
